@@ -178,7 +178,7 @@ def run_check(mod, tier: str, seed: int, jobs: int = 16) -> int:
     prop = mod.PROPERTY
     t0 = time.monotonic()
     cap = float(os.environ.get("VERIF_CAP_S", "0")) or (
-        getattr(mod, "CAP_QUICK", 900.0) if tier == "quick" else getattr(mod, "CAP_THOROUGH", 3 * 3600.0)
+        getattr(mod, "CAP_QUICK", 420.0) if tier == "quick" else getattr(mod, "CAP_THOROUGH", 3 * 3600.0)
     )
     deadline = t0 + cap
     units = mod.units(tier, seed)
@@ -209,7 +209,23 @@ def run_check(mod, tier: str, seed: int, jobs: int = 16) -> int:
     else:
         ctx = mp.get_context("fork")
         with ctx.Pool(min(jobs, len(units)), maxtasksperchild=1) as pool:
-            for r in pool.imap_unordered(_run_unit, args, chunksize=1):
+            it = pool.imap_unordered(_run_unit, args, chunksize=1)
+            seen_units: set[str] = set()
+            for _ in range(len(args)):
+                # watchdog: units poll the budget themselves; one that does not come back a while after the budget is spent
+                # (a slow machine, a worker that hangs) is abandoned and the run is reported as inconclusive - never as a violation
+                try:
+                    r = it.next(timeout=max(5.0, deadline + 60.0 - time.monotonic()))
+                except mp.TimeoutError:
+                    missing = [u.name for u in units if u.name not in seen_units]
+                    print(f"WATCHDOG property={prop}: {len(missing)} unit(s) did not finish within the budget ({cap:.0f} s + 60 s), abandoned: {missing[:8]}", file=sys.stderr)
+                    rec = Rec(prop, "<watchdog>", tier, seed, deadline)
+                    rec.inconclusive = True
+                    rec.exhaustive = False
+                    results.append(rec.result() | {"wall": 0.0})
+                    pool.terminate()
+                    break
+                seen_units.add(r["unit"])
                 results.append(r)
 
     # merge
